@@ -77,7 +77,9 @@ func checkC08(c *Ctx) {
 	c.Assumptions = []string{"timestamps within the confirmation deadlines (property's own proviso)", "MemState", "the replaying node never answers operations: a round's state must not depend on them"}
 	// "name-twins": participants whose names differ in letter case / surrounding blanks only (the proposal
 	// validation accepts them as different users; private messages are addressed by name)
-	kinds := []string{"honest+signing", "cancelled", "two-rounds", "honest+junk", "name-twins"}
+	// "key-mismatch": one participant announces another group key than the others (a faulty ceremony that
+	// ends cancelled in the last phase; who is recorded how must not depend on the node)
+	kinds := []string{"honest+signing", "cancelled", "two-rounds", "honest+junk", "name-twins", "key-mismatch"}
 	reps := c.Pick(8, 80)
 	type job struct {
 		kind string
@@ -169,6 +171,21 @@ func runC08(c *Ctx, kind string, seed uint64) {
 		_ = w.Board.Send(storage.Message{DkgRoundID: "", Event: EvReinit, Data: []byte(`{"dkg_id":"","threshold":0}`), SenderAddr: "nobody", Signature: []byte("x")})
 		rid := fmt.Sprintf("%064x", r.Uint64())
 		_ = w.Board.Send(storage.Message{DkgRoundID: rid, Event: EvReinit, Data: []byte(`{"dkg_id":"` + rid + `","threshold":2,"participants":[],"messages":[]}`), SenderAddr: "nobody", Signature: []byte("x")})
+	}
+	if kind == "key-mismatch" {
+		dev := r.Intn(n)
+		w.ResultHook = func(nd *world.Node, req, res *types.Operation) *types.Operation {
+			if string(req.Type) != OpMasterKey || nd.Idx != dev || len(res.ResultMsgs) != 1 {
+				return res
+			}
+			var mk requests.DKGProposalMasterKeyConfirmationRequest
+			if json.Unmarshal(res.ResultMsgs[0].Data, &mk) != nil {
+				return res
+			}
+			mk.MasterKey = oracle.PointBytes(oracle.NewSuite().Point().Pick(oracle.NewSuite().RandomStream()))
+			res.ResultMsgs[0].Data, _ = json.Marshal(mk)
+			return res
+		}
 	}
 	switch kind {
 	case "cancelled":
